@@ -239,7 +239,7 @@ func qsBrokerShutdown(rep *qsReport) {
 	vtime.Reset(time.Now())
 	ich := make(chan string, 4)
 	och := make(chan opshell.CLine) /* Taken from only while the shell attaches. */
-	b, err := iobroker.New(ich, och)
+	b, err := hworld.NewBroker(ich, och)
 	if nil != err {
 		ev.Broken("%s", err)
 	}
@@ -414,7 +414,7 @@ func qsBlockedWriter(rep *qsReport) {
 	vtime.Reset(time.Now())
 	ich := make(chan string, 4)
 	och := make(chan opshell.CLine, 256)
-	b, err := iobroker.New(ich, och)
+	b, err := hworld.NewBroker(ich, och)
 	if nil != err {
 		ev.Broken("%s", err)
 	}
